@@ -59,7 +59,7 @@ theorem cn_step_fresh (cfg : Cfg) (s s' : State f) (l : Label) (hw : WF s) (hc :
   obtain ⟨w1, w2, w3, w4, w5, w6⟩ := hw
   obtain ⟨c1, c2, c3, c4, c5, c6⟩ := hc
   clear c2 c3 c4 c5 c6
-  cases l <;> step_inv h
+  cases l <;> rfn_step_inv h
   all_goals (intro c' hc'; have := c1 c'; cn_tac)
 
 theorem cn_step_pre (cfg : Cfg) (s s' : State f) (l : Label) (hw : WF s) (hs : ST cfg s) (hc : CN s)
@@ -71,7 +71,7 @@ theorem cn_step_pre (cfg : Cfg) (s s' : State f) (l : Label) (hw : WF s) (hs : S
   have hq := hs.queued
   have hn := hs.qnodup
   clear hs
-  cases l <;> step_inv h
+  cases l <;> rfn_step_inv h
   all_goals (intro c' hc'; have := c1 c'; have := c2 c'; have := c4 c'; cn_tac)
 
 theorem cn_step_spawned (cfg : Cfg) (s s' : State f) (l : Label) (hw : WF s) (hs : ST cfg s) (hc : CN s)
@@ -83,7 +83,7 @@ theorem cn_step_spawned (cfg : Cfg) (s s' : State f) (l : Label) (hw : WF s) (hs
   have hq := hs.queued
   have hn := hs.qnodup
   clear hs
-  cases l <;> step_inv h
+  cases l <;> rfn_step_inv h
   all_goals (intro c' hc'; have := c1 c'; have := c2 c'; have := c3 c'; have := c4 c'; cn_tac)
 
 theorem cn_step_exec (cfg : Cfg) (s s' : State f) (l : Label) (hw : WF s) (hs : ST cfg s) (hc : CN s)
@@ -96,7 +96,7 @@ theorem cn_step_exec (cfg : Cfg) (s s' : State f) (l : Label) (hw : WF s) (hs : 
   have hq := hs.queued
   have hn := hs.qnodup
   clear hs
-  cases l <;> step_inv h
+  cases l <;> rfn_step_inv h
   all_goals (intro c' hc'; have := c1 c'; have := c2 c'; have := c3 c'; have := c4 c'; cn_tac)
 
 theorem cn_step_post (cfg : Cfg) (s s' : State f) (l : Label) (hw : WF s) (hs : ST cfg s) (hc : CN s)
@@ -108,7 +108,7 @@ theorem cn_step_post (cfg : Cfg) (s s' : State f) (l : Label) (hw : WF s) (hs : 
   have hq := hs.queued
   have hn := hs.qnodup
   clear hs
-  cases l <;> step_inv h
+  cases l <;> rfn_step_inv h
   all_goals (intro c'; have := c1 c'; have := c2 c'; have := c3 c'; have := c4 c'; have := c5 c'; cn_tac)
 
 theorem cn_step_fin (cfg : Cfg) (s s' : State f) (l : Label) (hw : WF s) (hs : ST cfg s) (hc : CN s)
@@ -121,7 +121,7 @@ theorem cn_step_fin (cfg : Cfg) (s s' : State f) (l : Label) (hw : WF s) (hs : S
   have hq := hs.queued
   have hn := hs.qnodup
   clear hs
-  cases l <;> step_inv h
+  cases l <;> rfn_step_inv h
   all_goals (intro c' a' r' hm; have h1 := c1 c'; have h2 := c2 c'; have h3 := c3 c'; have h4 := c4 c'; have h6 := c6 c' a' r'; have hq' := hq c'
              clear c1 c2 c3 c4 c6 hq hn w2 w4 w5 w6; cn_tac)
 
@@ -143,7 +143,7 @@ theorem sd_step (cfg : Cfg) (s s' : State f) (l : Label) (hc : CN s) (hd : SD s)
   obtain ⟨d1⟩ := hd
   have c4 := hc.exec
   clear hc
-  cases l <;> step_inv h
+  cases l <;> rfn_step_inv h
   all_goals (constructor; intro c' k'; have h1 := d1 c' k'; have h4 := c4 c'; clear d1 c4; cn_tac)
 
 theorem mem_deqOrder_of_count (c : Nat) (tr : List Ev) (h : 0 < deqCount c tr) : c ∈ deqOrder tr := by
